@@ -32,7 +32,7 @@ WithMin(G, m) == [G EXCEPT !.hasmin = TRUE, !.min = m]
 WithMax(G, m) == [G EXCEPT !.hasmax = TRUE, !.max = m]
 
 (* interval weights r^0 .. r^(N-1) *)
-GeoW(r, N) == [k \in 1..N |-> Pow(r, k - 1)]
+GeoW(r, N) == Tup([k \in 1..N |-> Pow(r, k - 1)])
 
 RECURSIVE CumSum(_, _, _)
 \* <<s, s+w1, s+w1+w2, ...>> : Len(w)+1 entries
@@ -40,39 +40,39 @@ CumSum(s, w, i) == IF i > Len(w) THEN <<s>> ELSE <<s>> \o CumSum(Add(s, w[i]), w
 
 (* Declared normalised node locations, N+1 rationals from 0 to 1. *)
 Normalized(G, N) ==
-  CASE G.kind = "uniform"   -> [k \in 1..N + 1 |-> Q(k - 1, N)]
-    [] G.kind = "free"      -> [k \in 1..N + 1 |-> Q(k - 1, N)]   \* used for guesses only
+  CASE G.kind = "uniform"   -> Tup([k \in 1..N + 1 |-> Q(k - 1, N)])
+    [] G.kind = "free"      -> Tup([k \in 1..N + 1 |-> Q(k - 1, N)])   \* used for guesses only
     [] G.kind = "function"  -> G.nodes
     [] G.kind = "geometric" ->
          LET w == GeoW(G.r, N)
              tot == SumSeq(w)
              cs == CumSum(Zero, w, 1)
-         IN [k \in 1..N + 1 |-> Div(cs[k], tot)]
+         IN Tup([k \in 1..N + 1 |-> Div(cs[k], tot)])
 
 (* The declared partition of [t0, t0+T] *)
-Declared(G, N, t0, T) == LET n == Normalized(G, N) IN [k \in 1..N + 1 |-> Add(t0, Mul(T, n[k]))]
+Declared(G, N, t0, T) == LET n == Normalized(G, N) IN Tup([k \in 1..N + 1 |-> Add(t0, Mul(T, n[k]))])
 
 HasTl(G)  == G.lT \/ G.kind = "free"
 HasT0l(G) == G.lt0
 
 (* The control grid as a function of the grid variables (what the NLP uses) *)
 ControlGrid(G, N, t0, T, gv) ==
-  IF HasT0l(G) THEN [k \in 1..N + 1 |-> IF k = 1 THEN t0 ELSE gv.t0l[k]]
+  IF HasT0l(G) THEN Tup([k \in 1..N + 1 |-> IF k = 1 THEN t0 ELSE gv.t0l[k]])
   ELSE IF HasTl(G) THEN CumSum(t0, gv.Tl, 1)
   ELSE Declared(G, N, t0, T)
 
 (* The unique assignment of grid variables that reproduces a given grid g *)
-GvOf(g, N) == [Tl |-> [k \in 1..N |-> Sub(g[k + 1], g[k])], t0l |-> g]
+GvOf(g, N) == [Tl |-> Tup([k \in 1..N |-> Sub(g[k + 1], g[k])]), t0l |-> g]
 
-Lengths(g) == [k \in 1..Len(g) - 1 |-> Sub(g[k + 1], g[k])]
+Lengths(g) == Tup([k \in 1..Len(g) - 1 |-> Sub(g[k + 1], g[k])])
 
 IntegratorGrid(g, N, M) ==
   \* N*M+1 points: t_k + l*(t_{k+1}-t_k)/M
-  [i \in 1..N * M + 1 |->
+  Tup([i \in 1..N * M + 1 |->
      IF i = N * M + 1 THEN g[N + 1]
      ELSE LET k == ((i - 1) \div M) + 1
               l == (i - 1) % M
-          IN Add(g[k], Mul(Q(l, M), Sub(g[k + 1], g[k])))]
+          IN Add(g[k], Mul(Q(l, M), Sub(g[k + 1], g[k])))])
 
 (***************************************************************************)
 (* Declarative feasibility of a grid-variable assignment (the property):   *)
